@@ -62,16 +62,16 @@ ConditionalScope::ConditionalScope(ElseCase) :
 	
 }
 
-ConditionalScope::ConditionalScope(ElseCase, const Bit& condition) :
+ConditionalScope::ConditionalScope(ElseCase elseCase, const Bit& condition) :
 	m_id(s_nextId++)
 {
 	hlim::Node_Logic* orNode = DesignScope::createNode<hlim::Node_Logic>(hlim::Node_Logic::OR);
-	orNode->connectInput(0, m_lastCondition);
+	orNode->connectInput(0, elseCase.lastCondition);
 	orNode->connectInput(1, condition.readPort());
 	m_combinedelseChainConditon = { .node = orNode, .port = 0u };
 
 	hlim::Node_Logic* invNode = DesignScope::createNode<hlim::Node_Logic>(hlim::Node_Logic::NOT);
-	invNode->connectInput(0, m_lastCondition);
+	invNode->connectInput(0, elseCase.lastCondition);
 
 	hlim::Node_Logic* andNode = DesignScope::createNode<hlim::Node_Logic>(hlim::Node_Logic::AND);
 	andNode->connectInput(0, condition.readPort());
